@@ -626,7 +626,8 @@ func ruleRejectedNoTimer(c *RC) *RuleResult {
 			// (a summarised callee that may touch it counts: `extendTimer` extends under conditions of its own)
 			for ev := range e.Events {
 				if strings.HasPrefix(ev, "fn:") && !strings.Contains(ev, "=") {
-					if f := c.Prog.fn(strings.TrimPrefix(ev, "fn:")); f != nil && (reachExt[f] || reachRst[f]) {
+					// (a helper that the walk goes through at the call site shows its own events on the path)
+					if f := c.Prog.fn(strings.TrimPrefix(ev, "fn:")); f != nil && (reachExt[f] || reachRst[f]) && !c.A.inlinable(f) && !c.A.inlinableShared(f) {
 						touched = true
 					}
 				}
